@@ -488,6 +488,16 @@ func init() {
 		}
 		return nil
 	})
+	intrinsics["sort.SliceStable"] = intrinsics["sort.Slice"] // the insertion sort above only swaps adjacent elements that are out of order: stable
+	reg("sort.Ints", func(ip *Interp, fr *frame, args []Value) Value {
+		s := args[0].(Slice)
+		for i := 1; i < len(s.s); i++ {
+			for j := i; j > 0 && ip.ex.Branch(ip.ts.Cmp(OpSlt, asTerm(s.s[j]), asTerm(s.s[j-1]))); j-- {
+				s.s[j], s.s[j-1] = s.s[j-1], s.s[j]
+			}
+		}
+		return nil
+	})
 	reg("sort.Strings", func(ip *Interp, fr *frame, args []Value) Value {
 		s := args[0].(Slice)
 		for i := 1; i < len(s.s); i++ {
